@@ -24,6 +24,9 @@ def run(ctx: core.Ctx):
                            label="traffic, own-modelname, two-callers", max_runs=60000 if ctx.tier == "thorough" else 6000)
     b2check.run_b2(ctx, lambda rng, th: [(gen.conn_keepalive_two(rng), rng.randrange(10 ** 9), rng.choice([0, 3])) for _ in range(20000 if th else 250)], ["C13two"],
                    label="a second connection with its own probes and queries alive in the same process (monitor only, first connection judged)", accept=False)
+    T = core.tables()
+    b2check.run_b2(ctx, lambda rng, th: [(gen.conn_reconnect(rng, T), rng.randrange(10 ** 9), rng.choice([0, 0, 3])) for _ in range(4000 if th else 100)], ["C13re"],
+                   label="connect() again on the same connection object after a close() / a lost link that left a partial line: the second session judged (monitor only)", accept=False)
     ctx.info["rule"] = ("probes, user MODELNAME queries racing them, other commands, unsolicited device lines, reply latencies 0..1.2 s, first probe swallowed or not; each under a seeded schedule with extra line-level preemptions; a case = one schedule; "
                         "non-trivial = distinct (spec, seed)")
     return ctx.finish()
@@ -31,4 +34,4 @@ def run(ctx: core.Ctx):
 
 def replay(ctx, path):
     rp = json.load(open(path))["replay"]
-    return b2check.replay_b2(rp, ["C13two" if rp["spec"].get("second") else "C13"])
+    return b2check.replay_b2(rp, ["C13two" if rp["spec"].get("second") else ("C13re" if rp["spec"].get("reconnect_device") else "C13")])
